@@ -332,3 +332,35 @@ def check_belt(rep, fb, parts=("def", "rem", "pos", "par", "export")):
             rep.ob("ivstate.export-public", inst, T.bequal(pub[1], T.bvar("IV"), F), "iv_state of a fresh object is the IV", loc_of(b6), computed=T.bshow(pub[1]), expected="IV")
     except (Undecided, KeyError, IndexError) as e:
         rep.undecided("belt.kernel", inst, str(e), loc_of(be.one))
+
+
+def check_ctr_aliases(rep, fb):
+    """the public byte-level aliases of `ctr` wrap the core over the flavour of the same name, and
+    that flavour's counter type has the width the name states (Ctr64BE must not count in 128 bits)."""
+    import re
+    cr, fls = ctr_flavors(fb)
+    by_name = {im["self"].split("::")[-1]: im for im in fls}
+    n = 0
+    for al in cr.aliases:
+        t = cr.types[al["ty"]]
+        if al["vis"] != "Public" or t["k"] != "adt" or not t["adt"].endswith("StreamCipherCoreWrapper"):
+            continue
+        n += 1
+        inst = "ctr::" + al["name"]
+        core = [cr.types[a["ty"]] for a in t["args"] if "ty" in a]
+        fl = None
+        if core and core[0]["k"] == "adt":
+            targs = [cr.types[a["ty"]] for a in core[0]["args"] if "ty" in a]
+            if len(targs) == 2 and targs[1]["k"] == "adt":
+                fl = targs[1]["adt"].split("::")[-1]
+        m = re.match(r"Ctr(\d+)(BE|LE)$", al["name"])
+        ok = fl is not None and fl == al["name"] and fl in by_name and m is not None
+        detail = "alias %s wraps CtrCore<_, %s>" % (al["name"], fl)
+        if ok:
+            at = {it["name"]: it for it in by_name[fl]["items"]}
+            bt = cr.types[at["Backend"]["ty"]]
+            ok = bt["k"] == "uint" and bt["name"] == "u" + m.group(1)
+            detail += "; its counter type is %s" % bt.get("name")
+        rep.ob("ctr.alias", inst, ok, detail)
+    if n == 0:
+        rep.ob("ctr.alias", "ctr", False, "no public StreamCipherCoreWrapper alias found in ctr")
